@@ -148,6 +148,7 @@ type Machine struct {
 	lastFrame      *frame
 	Sched          Scheduler
 	uniq           map[string]*Value
+	jsonAppend     *ssa.Function
 	model          map[string]uint64
 	modelValid     bool
 	auxVars        []*Term
